@@ -793,7 +793,10 @@ class Parser:
         raise BlockParseException(f'Expecting {s} got {self.current.tid}.', self.getline(), self.current.lineno, self.current.colno, self.lexer.getline(block_start.line_start), block_start.lineno, block_start.colno)
 
     def parse(self) -> CodeBlockNode:
-        block = self.codeblock()
+        try:
+            block = self.codeblock()
+        except RecursionError:
+            raise ParseException('Maximum nesting depth exceeded.', self.getline(), self.current.lineno, self.current.colno) from None
         try:
             self.expect('eof')
         except ParseException as e:
